@@ -5,7 +5,7 @@ marks on functions / classes / module level, body statement and expression forms
 signatures, tabs, CRLF, non-ASCII text before tokens.  Every choice comes from `rnd`."""
 import random, warnings
 
-NAMES = ["db", "client", "fx_a", "cls", "cfg", "srv"]
+NAMES = ["db", "client", "fx_a", "cls", "cfg", "srv", "e", "sync"]   # "e", "sync": names spelled inside "def " / "async def "
 DECOS = ["@pytest.fixture", "@fixture", "@pytest_asyncio.fixture", "@pytest.fixture()", "@fixture()",
          "@pytest.fixture(scope=\"module\")", "@pytest.fixture(scope='session', autouse=True)",
          "@pytest.fixture(autouse=False)", "@pytest.fixture(name=\"%s\")", "@pytest.fixture(name='%s', scope=\"Class\")",
